@@ -18,11 +18,13 @@ def main():
     rep = common.Report(a.pid, a.tier, seed, getattr(mod, "LEVEL", "proof"))
     try:
         if a.replay:
+            common.refresh_gen()
             mod.replay(rep, json.load(open(a.replay)))
         else:
             # replay files of earlier runs describe other trees: start from an empty directory
             import shutil
             shutil.rmtree(os.path.join(common.VERIF, "replays", a.pid), ignore_errors=True)
+            common.refresh_gen()
             mod.run(rep, a.tier, seed)
     except Exception as e:
         traceback.print_exc()
